@@ -181,7 +181,9 @@ ScenarioSet ==
       \* the pacing dimension of close / reset: in a read of its own, or (fast) possibly with the bytes before it
       Split == {[Primary(f, fr) EXCEPT !.pace = "split"] : f \in {g \in Plain : g[1] \in {"close", "reset"} /\ g[2] \in {"midhdr", "posthdr", "midbody"}}, fr \in Framings}
       \* interim responses before the final one
-      Interim == {[Primary(<<"none", "none">>, fr) EXCEPT !.interim = i] : fr \in Framings, i \in {"sep", "same"}}
+      \* (framed, kept-alive responses only: while InterimSwallowsFinal is open, a close right behind a swallowed
+      \* final response is the interplay of two defects)
+      Interim == {[Primary(<<"none", "none">>, fr) EXCEPT !.interim = i] : fr \in Framings \cap {"cl", "chunked"}, i \in {"sep", "same"}}
       Prim == {Primary(f, fr) : f \in Plain, fr \in Framings}
                \cup {[Base EXCEPT !.framing = fr, !.pace = "drip"] : fr \in Framings}
                \cup GwOk \cup Split \cup Interim
@@ -354,7 +356,9 @@ ConnectFail(r) ==
   /\ link' = [link EXCEPT ![r] = "none"]
   /\ hit' = [hit EXCEPT ![r] = "refused"]
   \* retry.rs fail(): the backend is unavailable for a second (a failure inside the window changes nothing)
-  /\ boff' = IF link[r] = "B1" /\ boff = 0 THEN BackoffTicks ELSE boff
+  \* (observed: only a failed connect to an HTTP/1 backend arms the window; after a refused h2c connect the
+  \* backend is offered again at once)
+  /\ boff' = IF link[r] = "B1" /\ boff = 0 /\ sc.back = "h1" THEN BackoffTicks ELSE boff
   /\ bfail' = (bfail \/ link[r] = "B1")
   /\ actor' = r
   /\ UNCHANGED <<sc, rq, answer, cause, attempts, bprog, cprog, fdone, stalled, dead, fconn, pool, bclock, fclock, wait, elapsed, istate, bup, idle>>
@@ -422,12 +426,17 @@ EndStream(r) ==
                      /\ UNCHANGED <<cprog, answer, pool, fconn, fclock>>
                 ELSE /\ Default(r, "502", "closedEarly")
                      /\ UNCHANGED <<cprog, pool>>
-       ELSE IF "LengthBodyCutByCloseCompletes" \in Deviations /\ rq[r].framing = "clclose" /\ sc.back = "h1" /\ dead[r] = "close" /\ view \in {2, 3}
-         THEN \* (fixed defect) Connection: close made the backend's close the end of a body that has a length
+       ELSE IF "LengthBodyCutByCloseCompletes" \in Deviations /\ rq[r].framing = "clclose" /\ sc.back = "h1" /\ dead[r] \in {"close", "reset"} /\ view \in {2, 3}
+         THEN \* (open finding) Connection: close makes the backend's close the end of a body that has a length
               /\ cprog' = [cprog EXCEPT ![r] = view]
               /\ answer' = [answer EXCEPT ![r] = "200"]
               /\ AfterComplete(r, [phase EXCEPT ![r] = "done"])
               /\ link' = link /\ fclock' = 0 /\ actor' = r
+       ELSE IF rq[r].framing = "clclose" /\ sc.back = "h1" /\ dead[r] = "close" /\ cprog[r] = 0 /\ view \in {2, 3}
+         THEN \* the close came in the same read as the head: the truncated response is an error before anything of
+              \* it was forwarded - answered like "no response" (502)
+              /\ Default(r, "502", "closedEarly")
+              /\ UNCHANGED <<cprog, pool>>
        ELSE IF view < 2 \/ (dead[r] = "garbage" /\ cprog[r] < 2 /\ "DefaultAfterHead" \notin Deviations)
          THEN \* no response: the request was written, retrying is unsafe
               /\ Default(r, "502", "closedEarly")
